@@ -7,6 +7,7 @@ C19 — executable model, entry point of the line protocol.
 import CBV.Model.C19Base
 import CBV.Model.C19Geo
 import CBV.Model.C19Sk
+import CBV.Model.C19Rim
 
 namespace CBV.C19
 
@@ -16,6 +17,9 @@ def handle (op : String) (args : List String) : Option String :=
   | none =>
     match handleGeo op args with
     | some r => some r
-    | none => handleSk op args
+    | none =>
+      match handleSk op args with
+      | some r => some r
+      | none => handleRim op args
 
 end CBV.C19
